@@ -215,6 +215,32 @@ def vocab(g, domains):
     return check
 
 
+def run_wrapper(g: GSpec, ev, delta, domains, default_order=False):
+    """The same query through the public entry points unconditional_cft / conditional_cft (CFTDomain objects, events
+    given as value-marked variables; with default_order the domains carry no ordering and the wrapper takes
+    graph.topological_sort()).  Returns ('fail', None) | ('ok', (expr, event)); exceptions propagate."""
+    from y0.algorithm.counterfactual_transport import api
+    from y0.dsl import CounterfactualVariable, Variable
+
+    dgs, dd = build_inputs(g, domains)
+    doms = [api.CFTDomain(graph=dg, population=pop, policy_variables=set(pol), ordering=None if default_order else list(order)) for (dg, order), (pol, pop) in zip(dgs, dd)]
+
+    def marked(pairs):
+        out = []
+        for var, val in pairs:
+            if isinstance(var, CounterfactualVariable):
+                out.append(CounterfactualVariable(name=var.name, star=val.star, interventions=var.interventions))
+            else:
+                out.append(Variable(name=var.name, star=val.star))
+        return out
+
+    if delta:
+        res = api.conditional_cft(outcomes=marked(y0_pairs(ev)), conditions=marked(y0_pairs(delta)), target_domain_graph=g.to_nx(), domains=doms)
+    else:
+        res = api.unconditional_cft(event=marked(y0_pairs(ev)), target_domain_graph=g.to_nx(), domains=doms)
+    return ("fail", None) if res is None else ("ok", (res.expression, res.event))
+
+
 def check_case(g, ev, domains, expr, revent, timeout_ms, delta=()):
     from y0.dsl import Zero
 
@@ -333,6 +359,36 @@ def work(job):
         elif status == "rejected":
             rec["why"] = payload
         res.append(rec)
+        # the public wrappers must give what the procedure gives on the same input (every 3rd accepted case)
+        if status in ("ok", "fail") and len(res) % 3 == 0:
+            for default_order in (False, True):
+                tag = "default ordering" if default_order else "explicit ordering"
+                wrec = dict(rec, status="wrapper", via=tag, violation=None)
+                for k in ("queries", "unsat", "sat", "unknown", "secs"):
+                    wrec[k] = 0
+                try:
+                    wst, wpay = run_wrapper(g, ev, delta, domains, default_order)
+                except Exception as e:  # noqa: BLE001
+                    wrec.update(status="crash", exc=f"public wrapper ({tag}): {type(e).__name__}: {short(e, 200)}")
+                    res.append(wrec)
+                    continue
+                same = wst == status and (wst == "fail" or (wpay[0] == payload[0] and str(wpay[1]) == str(payload[1])))
+                if same:
+                    continue
+                if not default_order or wst != status:
+                    wrec["violation"] = {"kind": "wrapper", "why": f"the public wrapper ({tag}) returned {'fail' if wst == 'fail' else short(wpay[0], 120)} but the procedure itself returned {'fail' if status == 'fail' else short(payload[0], 120)} on the same input"}
+                    wrec["status"] = "ok"
+                    wrec["est"] = "fail" if wst == "fail" else str(wpay[0])
+                    wrec["revent"] = None if wst == "fail" else str(wpay[1])
+                    res.append(wrec)
+                    continue
+                # another valid topological order may give another, equally right expression: check it semantically
+                wrec.update(status="ok", est=str(wpay[0]), revent=str(wpay[1]))
+                try:
+                    wrec.update(check_case(g, ev, domains, wpay[0], wpay[1], timeout_ms, delta))
+                except Exception as e:  # noqa: BLE001
+                    wrec["harness_exc"] = f"{type(e).__name__}: {short(e, 200)}"
+                res.append(wrec)
     return res
 
 
@@ -463,9 +519,9 @@ def run() -> int:
             rep.cases += 1
             g = GSpec.from_json(r["g"])
             dom = "; ".join(f"{POPS[i]}: T->{','.join(S) or '-'} policy {','.join(Z) or '-'}" for i, (S, Z) in enumerate(r["domains"]))
-            key = f"{g.key()} {r['evs']} [{dom}]"
-            rep.count(r["status"])
-            base = {"property": PROP, "graph": r["g"], "event": r["ev"], "delta": r.get("delta"), "domains": r["domains"], "hashseed": hashseed()}
+            key = f"{g.key()} {r['evs']} [{dom}]" + (f" via public wrapper, {r['via']}" if r.get("via") else "")
+            rep.count(r["status"] + (":wrapper" if r.get("via") else ""))
+            base = {"property": PROP, "graph": r["g"], "event": r["ev"], "delta": r.get("delta"), "domains": r["domains"], "via": r.get("via"), "hashseed": hashseed()}
             if r.get("harness_exc"):
                 rep.harness_errors.append(f"{key}: {r['harness_exc']}")
                 continue
@@ -526,6 +582,14 @@ def replay(payload: dict) -> int:
     try:
         delta = ev_from_json(payload.get("delta") or [])
         status, res = run_ctftr(g, ev, delta, domains) if delta else run_ctftru(g, ev, domains)
+        if payload.get("via"):
+            wst, wres = run_wrapper(g, ev, delta, domains, default_order=payload["via"].startswith("default"))
+            if payload["kind"] == "wrapper":
+                same = wst == status and (wst == "fail" or (wres[0] == res[0] and str(wres[1]) == str(res[1])))
+                print("procedure:", status, res, "| public wrapper:", wst, wres)
+                print("not reproduced" if same else "reproduced")
+                return 0 if same else 1
+            status, res = wst, wres
     except Exception as e:  # noqa: BLE001
         print(f"raised {type(e).__name__}: {e}")
         return 1 if payload["kind"] == "crash" else 0
